@@ -40,7 +40,7 @@ def _is_value(t, want, is_float):
     return tm.to_signed(tm.cbits(t), tm.csize(t)) == want
 
 
-def check_folds(ctx, cfg, F, H, type_filter, done):
+def check_folds(ctx, cfg, F, H, type_filter, done, product_unit=None):
     """type_filter(type name) -> scalar kind 'float' / 'int' or None.  done(rule, name, bad, it)"""
     n = 0
     for name, it in sorted(F.items.items()):
@@ -76,7 +76,12 @@ def check_folds(ctx, cfg, F, H, type_filter, done):
                     bad = 'the fold does not start from a constant'
                 else:
                     lanes = _const_lanes(F, H, init[1], rty)
-                    if not lanes or not all(_is_value(x, want, sk == 'float') for x in lanes):
+                    if kind == 'Product' and product_unit is not None:
+                        # the multiplicative unit of the type (identity matrix / quaternion), element by element
+                        unit = product_unit(tn, len(lanes or []))
+                        if not lanes or unit is None or len(unit) != len(lanes) or not all(_is_value(x, u, True) for x, u in zip(lanes, unit)):
+                            bad = 'the product does not start from the identity of the type: %s' % [tm.show(x) if x is not None else None for x in (lanes or [])][:16]
+                    elif not lanes or not all(_is_value(x, want, sk == 'float') for x in lanes):
                         bad = 'the fold starts from %s, expected every element %d' % ([tm.show(x) if x is not None else None for x in (lanes or [])][:4], want)
                 if not bad:
                     opname = 'add' if kind == 'Sum' else 'mul'
